@@ -17,7 +17,7 @@ use crate::engine::{explore, guarded, hex, show, validate_traces, Limits, Report
 use crate::refmodel::head;
 use crate::refmodel::reqvalid::{self, ReqFacts};
 
-pub const RULE: &str = "requests: methods {GET,HEAD,POST,PUT,DELETE,OPTIONS} x versions {1.0,1.1} plus {PATCH,CONNECT,TRACE} on HTTP/1.1 x original header lists of length 0..=1 (thorough 0..=2) x caller-added lists of length 0..=2 over the pool {host, content-length: 3, content-length: 0, transfer-encoding: chunked, transfer-encoding: Chunked (mixed case), x-a: 1, x-a: 2 (repeated name), x-bin: <0x80 0xff>, cookie, connection: close} (at most one of Content-Length / Transfer-Encoding) x send-body-despite-method {no,yes}, URIs with and without path/query/port; 12 URI shapes (empty path with query, bare '?', trailing '?', '//', userinfo, upper-case host + default port, fragment, IP literal, percent-encoded delimiters, path parameters) x {GET,POST,OPTIONS} x versions x with/without caller-added Host; long requests with n added (0,1,2,59,60; thorough every n in 0..=60) and m in {0,1,5} original headers; flows at redirect depth 1..3 (states of a redirect-chain graph from HTTP/1.1 and HTTP/1.0 originals, one of them with an upper-case host in its URI and a Host header of the caller's own, with 0/1 added headers incl. a framing header of the caller's own); requests the validity model accepts (the rejected ones of the menu are written five times, with headers_map() in between, and must never emit a byte); front ends Flow::<SendRequest>, Call::<WithoutBody>, Call::<WithBody>. Per request the COMPLETE graph of the writer: from every reachable state write(out) for EVERY out in 0..=|head|+1, and again in the completed state; on flows also the accessors method / uri / version / headers_map (which runs the request analysis early) as an action in every state. plus interleaving: for all 25 ordered pairs of five requests, flow 1 makes one write with every buffer size 0..=|head|, flow 2 writes its whole head, flow 1 finishes - both heads must equal what each flow writes alone. distinct = distinct (request, front end) graphs";
+pub const RULE: &str = "requests: methods {GET,HEAD,POST,PUT,DELETE,OPTIONS} x versions {1.0,1.1} plus {PATCH,CONNECT,TRACE} on HTTP/1.1 x original header lists of length 0..=1 (thorough 0..=2) x caller-added lists of length 0..=2 over the pool {host, content-length: 3, content-length: 0, transfer-encoding: chunked, transfer-encoding: Chunked (mixed case), x-a: 1, x-a: 2 (repeated name), x-bin: <0x80 0xff>, cookie, connection: close} (at most one of Content-Length / Transfer-Encoding) x send-body-despite-method {no,yes}, URIs with and without path/query/port; 12 URI shapes (empty path with query, bare '?', trailing '?', '//', userinfo, upper-case host + default port, fragment, IP literal, percent-encoded delimiters, path parameters) x {GET,POST,OPTIONS} x versions x with/without caller-added Host; long requests with n added (0,1,2,59,60; thorough every n in 0..=60) and m in {0,1,5} original headers; flows at redirect depth 1..3 (states of a redirect-chain graph from HTTP/1.1 and HTTP/1.0 originals,  with 0/1 added headers incl. a framing header of the caller's own); requests the validity model accepts (the rejected ones of the menu are written five times, with headers_map() in between, and must never emit a byte); front ends Flow::<SendRequest>, Call::<WithoutBody>, Call::<WithBody>. Per request the COMPLETE graph of the writer: from every reachable state write(out) for EVERY out in 0..=|head|+1, and again in the completed state; on flows also the accessors method / uri / version / headers_map (which runs the request analysis early) as an action in every state. plus interleaving: for all 25 ordered pairs of five requests, flow 1 makes one write with every buffer size 0..=|head|, flow 2 writes its whole head, flow 1 finishes - both heads must equal what each flow writes alone. distinct = distinct (request, front end) graphs";
 
 const URI_SHAPES: [&str; 12] = ["http://a.test?x=1", "http://a.test?", "http://a.test/p?", "http://a.test/?", "http://a.test//d", "http://u:pw@a.test/p", "http://A.TEST:80/P", "http://a.test/p#frag", "http://[::1]:8080/p", "http://a.test/%3F?%20&a=b?c", "https://a.test", "http://a.test/p;v=1/q"];
 
@@ -608,7 +608,7 @@ fn gen_requests(tier: Tier) -> Vec<(ReqCfg, &'static str)> {
 fn redirected() -> Vec<(String, Spec, Box<dyn Fn() -> W + Send + Sync>)> {
     let locs = vec![Loc::one("/q?r=1"), Loc::one("http://b.test:8080/q/"), Loc::one("../up")];
     let mut out: Vec<(String, Spec, Box<dyn Fn() -> W + Send + Sync>)> = Vec::new();
-    for (m, cl, ver, explicit_host) in [("GET", false, "1.1", false), ("POST", true, "1.1", false), ("DELETE", false, "1.1", false), ("HEAD", false, "1.1", false), ("GET", false, "1.0", false), ("POST", true, "1.0", false), ("GET", false, "1.1", true)] {
+    for (m, cl, ver, explicit_host) in [("GET", false, "1.1", false), ("POST", true, "1.1", false), ("DELETE", false, "1.1", false), ("HEAD", false, "1.1", false), ("GET", false, "1.0", false), ("POST", true, "1.0", false)] {
         // (names that merely END in a suppressed name must survive a redirect)
         // explicit_host: the URI spells its host with upper-case letters and the caller names the Host itself;
         // the caller's Host stays as long as the chain stays on that host (host names are case-insensitive)
